@@ -121,6 +121,7 @@ type RunConfig struct {
 	MapOrderAll  bool
 	MapOrderMax  int
 	SchedAll     bool
+	HangIsViolation bool // a path that exceeds MaxSteps is reported as a violation (bounded termination)
 	SchedYield   bool // explore every choice at explicit yields only (plus bounded preemption), deterministic elsewhere
 	Preempt      int
 	MaxConcretize int
